@@ -29,16 +29,16 @@ def showOutcome : Outcome → String
     s!"failed phase={showPhase p} err={showErr e} killed={k} actor={a'}"
 
 /-- (task key, text); key 0 = actor, 1 = handles/probes, oid+2 = client -/
-def showEv : Ev → Nat × String
+def showEv (s : Sys) : Ev → Nat × String
   | .issued oid op t => (oid + 2, s!"C{oid} issued {showOp op}" ++ (match t with | some d => s!" timeout={d}" | none => ""))
   | .accepted oid idx => (oid + 2, s!"C{oid} accepted idx={idx}")
   | .ret oid r => (oid + 2, s!"C{oid} ret {showRes r}")
-  | .dead oid w => (oid + 2, s!"C{oid} dead {showReason w}")
+  | .dead oid w => (oid + 2, s!"C{oid} dead {showReason w} op={showOp (s.spec oid).kind}")
   | .startEnd o => (0, s!"A startEnd {showSOut o}")
-  | .termConsumed => (0, "A termConsumed")
+  | .termConsumed => (0, "")
   | .handlerStart m => (0, s!"A handlerStart {m}")
   | .handlerEnd m o => (0, s!"A handlerEnd {m} {showHOut o}")
-  | .replySent m => (0, s!"A replySent {m}")
+  | .replySent _ => (0, "")
   | .tellResult m => (0, s!"A tellResult {m}")
   | .runPoll k => (0, s!"A runPoll {k}")
   | .runEnd k o => (0, s!"A runEnd {k} {showROut o}")
@@ -54,8 +54,8 @@ def insertSorted (x : Nat × String) : List (Nat × String) → List (Nat × Str
   | y :: ys => if x.1 < y.1 then x :: y :: ys else y :: insertSorted x ys
 
 /-- stable sort by task key -/
-def canon (evs : List Ev) : List String :=
-  ((evs.map showEv).foldl (fun acc x => insertSorted x acc) []).map (·.2)
+def canon (s : Sys) (evs : List Ev) : List String :=
+  ((((evs.map (showEv s)).filter (·.2 ≠ "")).foldl (fun acc x => insertSorted x acc) []).map (·.2))
 
 def parseSOut : String → Option SOut | "ok" => some .ok | "err" => some .err | "panic" => some .panic | _ => none
 def parseHOut : String → Option HOut | "ok" => some .ok | "panic" => some .panic | _ => none
@@ -120,7 +120,7 @@ partial def loop (h : IO.FS.Stream) (st : Option Sys) : IO Unit := do
     | some s0 =>
       IO.println s!"> {line.trimAscii.toString}"
       let s1 := afterOp s0
-      for l in canon (s1.ev.drop s0.ev.length) do IO.println l
+      for l in canon s1 (s1.ev.drop s0.ev.length) do IO.println l
       IO.println "--"
       loop h (some s1)
     | none => IO.println "! bad-spawn"; loop h none
@@ -134,7 +134,7 @@ partial def loop (h : IO.FS.Stream) (st : Option Sys) : IO Unit := do
       | none => IO.println "! disabled"; IO.println "--"; loop h (some s)
       | some s1 =>
         let s2 := afterOp s1
-        for l in canon (s2.ev.drop s.ev.length) do IO.println l
+        for l in canon s2 (s2.ev.drop s.ev.length) do IO.println l
         IO.println "--"
         loop h (some s2)
 
